@@ -105,6 +105,7 @@ type World struct {
 	Seen   map[string]bool // every id ever issued
 	seq    int
 	StepNo int
+	Skewed bool // some events were re-dated: time no longer grows along the log
 	NoTwin bool // faults do not set up the never-crashed twin (checks other than C03)
 	// Twin, when set, is a copy of the store that was compacted at the fork point; every
 	// later op is applied to both and the outcomes must agree (C05).
@@ -329,7 +330,7 @@ func (w *World) Build(op Op) Cmd {
 		sub = append(sub, "compact") // executed on the twin only
 	case "fault":
 		return w.Build(*op.Inner)
-	case "chop_newline":
+	case "chop_newline", "debris", "redate":
 		sub = append(sub, "list") // never executed
 	default:
 		panic("unknown op kind " + op.Kind)
@@ -344,7 +345,7 @@ func (w *World) Build(op Op) Cmd {
 // IsMutation says whether the op can change the store when it succeeds.
 func (o Op) IsMutation() bool {
 	switch o.Kind {
-	case "prune", "init", "chop_newline":
+	case "prune", "init", "chop_newline", "debris", "redate":
 		return false
 	}
 	return true
